@@ -368,6 +368,18 @@ def rule_general_lemma(ctx):
     ctx.add("TPL", "other-roles", other is not None and other[:2] == ("ctor", "Result::Err") and len(a) == 3, site, "other roles cannot become lemmas")
 
 
+_COPY_METHODS = ("iter", "cloned", "copied", "clone", "to_vec", "to_owned", "into_iter", "as_slice")
+_READ_METHODS = _COPY_METHODS + ("len", "is_empty", "first", "last", "get", "contains")
+
+
+def _copied_local(e):
+    """the local whose elements the expression hands on unchanged: `axioms`, `axioms.clone()`, `axioms.iter().cloned()`, `axioms.to_vec()`"""
+    cur = strip(e)
+    while cur.get("k") == "MethodCall" and cur.get("method") in _COPY_METHODS and not cur.get("args"):
+        cur = strip(cur["recv"])
+    return local_of(cur)
+
+
 def rule_sequencing(ctx):
     fx = ctx.facts
     b = fx.fn("decompose", impl_self=EE + "AssembledExternalEquivalenceTask")
@@ -399,8 +411,8 @@ def rule_sequencing(ctx):
         ax_name = None
         for ch_ in tasks.problem_chains(obody):
             adds_ = [a_[0] for m_, a_, _ in ch_["steps"] if m_ == "add_annotated_formulas"]
-            if adds_ and local_of(adds_[0]):
-                ax_name = local_of(adds_[0])
+            if adds_ and _copied_local(adds_[0]):
+                ax_name = _copied_local(adds_[0])
         app_idx = [i for i, s in enumerate(st) if hq.stmt_expr(s) is not None and [c for c in walk(hq.stmt_expr(s)) if c.get("k") == "MethodCall" and c["method"] in ("append", "extend", "push", "extend_from_slice")
                                                                                   and ax_name is not None and ax_name == (local_of(c["recv"]) or "") ]]
         problem_idx = [i for i, s in enumerate(st) if hq.calls(s, "Problem::with_name")]
@@ -423,10 +435,10 @@ def rule_sequencing(ctx):
             ok = len(ch) == 1
             if ok:
                 adds = [a[0] for m, a, _ in ch[0]["steps"] if m == "add_annotated_formulas"]
-                ok = len(adds) == 2 and ax_name is not None and local_of(adds[0]) == ax_name and strip(adds[1]).get("k") == "Call" and \
+                ok = len(adds) == 2 and ax_name is not None and _copied_local(adds[0]) == ax_name and strip(adds[1]).get("k") == "Call" and \
                     {n_["res"]["id"] for n_ in walk(strip(adds[1])["args"][0]) if n_.get("k") == "Path" and n_.get("res", {}).get("r") == "local"} & conj_ids != set()
                 # nothing in the inner loop modifies axioms
-                muts = [c for c in walk(inner[3]) if c.get("k") == "MethodCall" and local_of(c["recv"]) == ax_name and c["method"] not in ("clone",)]
+                muts = [c for c in walk(inner[3]) if c.get("k") == "MethodCall" and local_of(c["recv"]) == ax_name and c["method"] not in _READ_METHODS]
                 ok = ok and not muts
             ctx.add("SEQ", d + ":outline-problem", ok, site, "each outline problem = the axioms accumulated so far + exactly one conjecture of the lemma; the inner loop does not touch the axioms")
         # MIR cross-check: the append block is not followed by a Problem::with_name of the same iteration without passing the loop head
